@@ -17,7 +17,7 @@ func TestMain(m *testing.M) {
 	os.Exit(code)
 }
 
-const loopAssume = "closed loop = real coordinator + real sidecars (TargetsManager on a store directory, Service through its gin routes, Proxy scraping an in-memory target farm) + simulated Prometheus (scrapes exactly what the sidecar holds, head series = what it last ingested from currently assigned targets) + simulated StatefulSet (scale requests applied before the next cycle, new shards ready after 0-2 cycles); bounded liveness: convergence within B = 20 + 10*(max shard count seen + 1) settle rounds of (cycle; scrape-all), then stable for 5 rounds; oversize targets are never part of an initial placement and assigned targets never grow beyond a limit"
+const loopAssume = "closed loop = real coordinator + real sidecars (TargetsManager on a store directory, Injector writing the Prometheus configuration, Service through its gin routes, Proxy scraping an in-memory target farm) + simulated Prometheus (scrapes exactly the static targets of the generated configuration file, expanded by the vendored Prometheus library; head series = what it last ingested from currently assigned targets) + simulated StatefulSet (scale requests applied before the next cycle, new shards ready after 0-2 cycles); bounded liveness: convergence within B = 20 + 10*(max shard count seen + 1) settle rounds of (cycle; scrape-all), then stable for 5 rounds; oversize targets are never part of an initial placement and assigned targets never grow beyond a limit"
 
 func recC03() *vkit.Recorder {
 	r := vkit.Rec("C03", "exploration", "rapid-generated closed-loop runs: configuration x workload x arbitrary initial placement (duplicates, pending transfers, overload) x prefix of cycles / per-shard scrape rounds / workload edits, then a fault-free settle phase judged for bounded convergence, quiescence and scale-up-when-unplaceable; non-trivial = run with a transfer, a scale change, or a duplicate / pending transfer in the initial placement; distinct = digest of the case")
@@ -134,7 +134,7 @@ func TestC05Loop(t *testing.T) {
 func TestReplayC05Loop(t *testing.T) { replayLoop(t, recC05(), "TestC05Loop", "C03", true) }
 
 func recC06() *vkit.Recorder {
-	r := vkit.Rec("C06", "fault_enumeration", "closed-loop runs as in C03 with up to 4 faults from the alphabet {targets POST not delivered, POST applied but reply lost (both armed on the next POST / next adding POST / next POST that marks a transfer), sidecar restart from its store, shard unready / unreachable / out of sync with rejected pushes for k cycles, tail shard killed and re-created with or without its store} placed anywhere in a generated prefix, then all faults cleared and the C03 convergence oracle; non-trivial = a run in which an armed fault fired or a timed fault covered a cycle that changed something; distinct = digest of the case")
+	r := vkit.Rec("C06", "fault_enumeration", "closed-loop runs as in C03 with up to 4 faults from the alphabet {targets POST not delivered, POST applied but reply lost (both armed on the next POST / next adding POST / next POST that marks a transfer), sidecar restart from its store, shard unready / unreachable / out of sync with rejected pushes for k cycles, tail shard killed and re-created with or without its store, StatefulSet scaled down from outside for good} placed anywhere in a generated prefix (30% of the cases: a directed scenario in which a relief or scale-down move certainly happens and 1-3 faults hit it before it starts or after 0-3 scrape rounds), then all faults cleared and the C03 convergence oracle; non-trivial = a run in which an armed fault fired or a timed fault covered a cycle that changed something; distinct = digest of the case")
 	r.Assume(loopAssume, "at most 4 faults per run, <= 4 initial shards, <= 6 targets")
 	return r
 }
